@@ -188,6 +188,12 @@ class ObjectDomain(LazyGenerators, EffectDomain):
         key = f"inst.{n}.{attr}"
         if attr == "__setattr__" and self._method(ci, attr) is None:
             return [val(("setattrmethod", inst), st)]   # object.__setattr__ bound to the instance: setattr(inst, name, value)
+        made = self._made_property(interp, ci, attr, st, fr) if interp is not None else None
+        if made is not None:
+            out = []
+            for pv, s1 in made:
+                out.extend(self.apply(interp, pv[1], [inst], [], s1, fr) if pv[1] != NONE else [exc(("exc", "AttributeError"), s1)])
+            return out
         prop = self._declared_property(ci, attr)
         if prop is not None and interp is not None and isinstance(prop[0], tuple):
             return self._run_getter(interp, prop[0], inst, st, fr, receiver=ci, self_value=inst)
@@ -250,8 +256,30 @@ class ObjectDomain(LazyGenerators, EffectDomain):
                 return None
         return None
 
+    def _made_property(self, interp, ci, name, st, fr):
+        """When the class body binds ``name`` to what a call makes (name = factory(...)) and that is a property object:
+        [(("property", getter, setter), state)], else None."""
+        got = self._class_attr_expr(ci, name)
+        if got is None or not isinstance(got[1], ast.Call) or dotted(got[1].func) in ("property", None) or name in got[0].methods:
+            return None
+        if self._pure_constructor(got[1]) or (dotted(got[1].func) or "").split(".")[-1] in self._PURE_CONSTRUCTORS + ("frozenset", "set", "dict", "list", "tuple", "object", "namedtuple", "count"):
+            return None
+        res = self._eval_class_expr(interp, got[0], got[1], st, fr)
+        if res and all(r.kind == "val" and isinstance(r.value, tuple) and r.value[:1] == ("property",) and len(r.value) == 3 for r in res):
+            return [(r.value, r.state) for r in res]
+        return None
+
     def set_attribute_value(self, interp, obj, name, value, st, fr):
         """setattr(obj, name, value) on an instance -> the state afterwards (the setter of a property runs)."""
+        made = self._made_property(interp, obj[2], name, st, fr)
+        if made is not None:
+            if len(made) != 1 or made[0][0][2] == NONE:
+                raise Undecided(f"{obj[2].name}.{name} is a property made by a call, without a setter the model can follow, and is assigned to")
+            outs = self.apply(interp, made[0][0][2], [obj, value], [], made[0][1], fr)
+            done = [r for r in outs if r.kind == "val"]
+            if len(outs) != 1 or len(done) != 1:
+                raise Undecided(f"the setter of {obj[2].name}.{name} does not simply return")
+            return done[0].state
         prop = self._declared_property(obj[2], name)
         if prop is None:
             return st.set(f"inst.{obj[1]}.{name}", value)
@@ -277,6 +305,8 @@ class ObjectDomain(LazyGenerators, EffectDomain):
             return None
         if not is_inst(obj):
             return None
+        if self._made_property(interp, obj[2], target.attr, st, fr) is not None:
+            return self.set_attribute_value(interp, obj, target.attr, value, st, fr)
         prop = self._declared_property(obj[2], target.attr)
         if prop is None:
             return None
@@ -1301,6 +1331,17 @@ class ObjectDomain(LazyGenerators, EffectDomain):
                     out.extend(interp.eval(node, r.state, fr))
             if decided:
                 return out
+        if d == "property" and 1 <= len(call.args) + len(call.keywords) <= 2 and all(k.arg in ("fget", "fset") for k in call.keywords) and not st.has(fr.local("property")):
+            # property(getter[, setter]) as an object: a class attribute holding it is looked up / assigned through these functions
+            out = []
+            for r in interp.eval_list(list(call.args) + [k.value for k in call.keywords], st, fr):
+                if r.kind == "exc":
+                    out.append(r)
+                    continue
+                given = dict(zip(("fget", "fset"), r.value[: len(call.args)]))
+                given.update({k.arg: v for k, v in zip(call.keywords, r.value[len(call.args):])})
+                out.append(val(("property", given.get("fget", NONE), given.get("fset", NONE)), r.state))
+            return out
         if isinstance(f_, ast.Attribute) and f_.attr == "with_traceback" and len(call.args) == 1 and not call.keywords:
             recv = interp.eval(f_.value, st, fr)
             if recv and all(r.kind == "exc" or (isinstance(r.value, tuple) and r.value[:1] == ("exc",)) for r in recv):
@@ -1686,7 +1727,7 @@ class ObjectDomain(LazyGenerators, EffectDomain):
                                 out.extend(self.apply(interp, g.value, pos, kw, s2, fr))
                     return out
             # calling the value of an arbitrary expression: f(x)(y), table[k](x), getattr(o, n)(x)
-            if isinstance(f_, (ast.Call, ast.Subscript)) or (isinstance(f_, ast.Attribute) and not attr_chain(f_) and not (dotted(f_) or "").startswith("super()")
+            if isinstance(f_, (ast.Call, ast.Subscript, ast.BoolOp, ast.IfExp)) or (isinstance(f_, ast.Attribute) and not attr_chain(f_) and not (dotted(f_) or "").startswith("super()")
                                                              and not any(isinstance(n_, ast.Call) for n_ in ast.walk(f_.value))):
                 vals = interp.eval(f_, st, fr)
                 if vals and all(r.kind == "exc" or (isinstance(r.value, tuple) and r.value[:1] and (r.value[0] in CALLABLE_TAGS + ("wobj",) or is_inst(r.value))) for r in vals):
